@@ -128,6 +128,8 @@ func (w *World) shadowCheck() {
 
 // fullChainInvariants: linkage for every height, inverse maps both ways (C02).
 func (w *World) fullChainInvariants() {
+	w.Store.Paused = true
+	defer func() { w.Store.Paused = false }()
 	ctx := core.Ctx()
 	tip := w.Node.LastHeight(ctx)
 	// heights to check: everything for short chains; for long ones the last 24 and +-3 around
@@ -254,8 +256,77 @@ func init() {
 			rule:   "explicit-state BFS over sequences of messages the trusted connection sends after a normal handshake: headers messages with lists drawn from a tree (trunk, fork at a processed block, fork among pending blocks, fork below the start block, duplicates, gaps, unknown parents, empty) and block messages (requested, unrequested, duplicate, unknown), with block-processor steps (tick) anywhere; after every event: every stored block links to the block below, Hash/Height inverse in both directions (private map read by reflection), HandleHeaders heights form a chain on a shadow list; no panic. Second scenario: start block hash not on the initial chain (pre-start header mode).",
 			assume: []string{"no assumption on the peer's behaviour beyond well-formed wire messages", "hist mode: canonical thread schedule between events"}})
 		repoConc(rep, "C02")
+		c02Faults(rep)
 		return rep.Finish()
 	}
 	Replayers["C02"] = func(wit json.RawMessage) []core.Violation { return histReplay(wit, "C02") }
 	debugScenarios["C02"] = c02Scenarios
+}
+
+// c02Faults: the linkage invariants also have to survive a storage operation that fails once while
+// the peer sends (and repeats) its headers: header sync below the start block across the
+// 1000-header file boundary, every storage operation failing in turn, the peer's headers messages
+// delivered a second time afterwards; the C02 invariants are evaluated after every event.
+type c02FaultTask struct {
+	P    histParams `json:"p"`
+	Hist []string   `json:"hist"`
+}
+
+func c02Faults(rep *core.Report) {
+	p := histParams{Prop: "C02", Cfg: WorldCfg{InitialChain: 1003, StartHeight: 1002, SafeDelayMS: 2000, RemoveMissing: true}, Boot: "cold"}
+	hist := []string{"ans", "duph:0", "settle", "duph:0", "duph:1", "ext:1", "settle"}
+	base := runHist(p, hist, false)
+	ops := base.w.Store.Ops
+	base.w.Close()
+	for _, v := range base.w.viol {
+		if v.Property == "C02" {
+			rep.AddViolation(v)
+		}
+	}
+	pool := core.NewPool()
+	var tasks []interface{}
+	for j := 1; j <= ops; j++ {
+		q := p
+		q.FailAt = j
+		tasks = append(tasks, c02FaultTask{q, hist})
+	}
+	runs := 0
+	pool.Map("c02fault", tasks, func(i int, r core.TaskResult) {
+		if r.Died != "" || r.Err != "" {
+			rep.HarnessError("fault %d: %s%s", i+1, r.Died, r.Err)
+			return
+		}
+		var vs []core.Violation
+		json.Unmarshal(r.Res, &vs)
+		runs++
+		for _, v := range vs {
+			rep.AddViolation(v)
+		}
+	})
+	addInt(rep, "states", runs)
+	addInt(rep, "transitions", runs*len(hist))
+	addInt(rep, "traces_validated_against_impl", runs*len(hist))
+	rep.Coverage["fault_runs"] = runs
+	rep.Coverage["fault_rule"] = "header sync below the start block across the 1000-header file boundary with the peer repeating its headers messages: each of the storage operations of that history fails once (one run per operation); linkage / inverse-map invariants after every event"
+}
+
+func init() {
+	core.RegisterOp("c02fault", func(arg json.RawMessage) (interface{}, error) {
+		var t c02FaultTask
+		if err := json.Unmarshal(arg, &t); err != nil {
+			return nil, err
+		}
+		r := runHist(t.P, t.Hist, false)
+		defer r.w.Close()
+		var out []core.Violation
+		for _, v := range r.w.viol {
+			if v.Property == "C02" || v.Clause == "panic" {
+				v.Property = "C02"
+				v.Class += " (after a failed storage operation)"
+				v.Witness = map[string]interface{}{"hist": t.Hist, "scenario": t.P}
+				out = append(out, v)
+			}
+		}
+		return out, nil
+	})
 }
